@@ -5,6 +5,7 @@ mod conc;
 mod d9;
 mod ebr;
 mod ebrstall;
+mod guardseq;
 mod list;
 mod pure;
 mod queue;
@@ -123,6 +124,14 @@ fn main() {
             let n: usize = arg(&args, "--chain").and_then(|s| s.parse().ok()).unwrap_or(1000);
             let (adv, bad) = d9::run(n);
             println!("d9: chain={} epochs_advanced_during_first_subtree={} second_child_destructed_under_pinned_snapshot={}", n, adv, bad);
+        }
+        "guard-replay" => {
+            let input = std::fs::read_to_string(arg(&args, "--in").expect("--in FILE")).unwrap();
+            guardseq::replay(input.trim());
+        }
+        "guard" => {
+            let (lines, props, fails) = guardseq::run(&out, seed, thorough);
+            println!("guard: lines={} property_checks={} property_failures={}", lines, props, fails);
         }
         "ebr-stall" => {
             let n: usize = arg(&args, "--cases").and_then(|s| s.parse().ok()).unwrap_or(if thorough { 6000 } else { 600 });
